@@ -217,6 +217,16 @@ func (h *Hub) connectFoundService(remoteService *api.ServiceDetails, host, port,
 
 	// the check and the registration have to be one step, see ServeHTTP
 	h.muxConReg.Lock()
+
+	// the pairing may have been removed while the connection was being established
+	pairingState := remoteService.ConnectionStateDetail().State()
+	if !h.IsRemoteServiceForSKIPaired(remoteService.SKI()) && pairingState != api.ConnectionStateQueued {
+		h.muxConReg.Unlock()
+		logging.Log().Debugf("closing connection to %s: the service is no longer paired", remoteService.SKI())
+		_ = conn.Close()
+		return nil
+	}
+
 	if !h.keepThisConnection(conn, false, remoteService) {
 		h.muxConReg.Unlock()
 		errorString := fmt.Sprintf("closing connection to %s: ignoring this connection", remoteService.SKI())
